@@ -84,6 +84,16 @@ check("C14", "TLC check of Reprint laws (stutter, idempotence) + replay of print
       "DESIGN.md §4.8, §6 C14")
 
 
+check("C15", "TLC enumeration of Defects injections with documented levels + replay; CursorTrace validation of every diagnostic location",
+      "spec/Defects.tla enumerates single-defect injections (missing end tag, unterminated tag, unterminated {{, trailing "
+      "garbage, unknown directive/prefix, duplicated attribute per family, children under childless elements, missing "
+      "src/module/is) with acceptable kinds and the documented minimum level; the real parser must flag each; every "
+      "concretised clean case of families F1-F7 must produce nothing at Warn or above; every diagnostic of every input "
+      "(also repository snippets and seeded mutations) is validated as a Warn event of CursorTrace (start <= end, both "
+      "ends in the text).",
+      "DESIGN.md §4.8, §6 C15")
+
+
 def main():
     props = [json.loads(l) for l in open(os.path.join(HERE, "properties.jsonl"))]
     ids = [p["id"] for p in props]
